@@ -17,25 +17,27 @@ def render(cases):
         aw = ".await" if sh["async"] else ""
         lst = (["_"] if sh["skipped"] else [])
         for i, e in enumerate(entries, 1):
-            lst.append({"none": "_", "path": "real%d_%d" % (n, i), "expl": "realx%d_%d(b, a)" % (n, i)}[e])
+            lst.append({"none": "_", "path": "real%d_%d" % (n, i), "expl": "realx%d_%d(b, a)" % (n, i), "expls": "realy%d_%d(self, b, a)" % (n, i)}[e])
         lst.append("_")
         L.append("#[unimock(api=M%d, unmock_with=[%s])]" % (n, ", ".join(lst)))
         L.append("trait Tr%d {" % n)
         if sh["skipped"]:
             L.append("    fn version() -> u32 where Self: Sized { 1 }")
         for i in range(1, k + 1):
-            L.append("    %sfn m%d_%d(%s, a: u8, b: &str) -> u32;" % (asy, n, i, RECV[recv]))
-        L.append("    fn helper%d(&self, a: u8, b: &str) -> u32;" % n)
+            L.append("    %sfn m%d_%d(%s, a: u8, b: u8) -> u32;" % (asy, n, i, RECV[recv]))
+        L.append("    fn helper%d(&self, a: u8, b: u8) -> u32;" % n)
         L.append("}")
         for i, e in enumerate(entries, 1):
             if e == "path":
                 nested = ""
                 if sh["nested"] and i == t:
-                    nested = "let v = dep.helper%d(3, \"h\"); rec_a(vec![\"nested\".to_string(), v.to_string()]); " % n
-                L.append("%sfn real%d_%d(dep: %s, a: u8, b: &str) -> u32 { rec_a(vec![\"real_%d\".to_string(), sh(&a), sh(&b)]); %s%d }" %
+                    nested = "let v = dep.helper%d(3, 4); rec_a(vec![\"nested\".to_string(), v.to_string()]); " % n
+                L.append("%sfn real%d_%d(dep: %s, a: u8, b: u8) -> u32 { rec_a(vec![\"real_%d\".to_string(), sh(&a), sh(&b)]); %s%d }" %
                          (asy, n, i, DEP[recv] % n, i, nested, 1000 + i))
+            elif e == "expls":
+                L.append("%sfn realy%d_%d(_dep: %s, b: u8, a: u8) -> u32 { rec_a(vec![\"realy_%d\".to_string(), sh(&b), sh(&a)]); %d }" % (asy, n, i, DEP[recv] % n, i, 3000 + i))
             elif e == "expl":
-                L.append("%sfn realx%d_%d(b: &str, a: u8) -> u32 { rec_a(vec![\"realx_%d\".to_string(), sh(&b), sh(&a)]); %d }" % (asy, n, i, i, 2000 + i))
+                L.append("%sfn realx%d_%d(b: u8, a: u8) -> u32 { rec_a(vec![\"realx_%d\".to_string(), sh(&b), sh(&a)]); %d }" % (asy, n, i, i, 2000 + i))
         helper_clause = "M%d::helper%d.each_call(matching!(3, _)).returns(77u32).once()" % (n, n)
         if sh["mode"] == "partial":
             build = "Unimock::new_partial(%s)" % (helper_clause if sh["nested"] else "()")
@@ -44,7 +46,7 @@ def render(cases):
             build = "Unimock::new(%s)" % (("(%s, %s)" % (cl, helper_clause)) if sh["nested"] else cl)
         cid = "u%d" % n
         mutu = "mut " if recv in ("mut", "pin") else ""
-        call = {"ref": "u.m%d_%d(5, \"s\")", "mut": "u.m%d_%d(5, \"s\")", "own": "u.m%d_%d(5, \"s\")", "pin": "std::pin::Pin::new(&mut u).m%d_%d(5, \"s\")"}[recv] % (n, t)
+        call = {"ref": "u.m%d_%d(5, 9)", "mut": "u.m%d_%d(5, 9)", "own": "u.m%d_%d(5, 9)", "pin": "std::pin::Pin::new(&mut u).m%d_%d(5, 9)"}[recv] % (n, t)
         if sh["async"]:
             call = "block_on(%s)" % call
         L.append("fn %s() {" % cid)
@@ -62,7 +64,7 @@ def render(cases):
         want_a = []
         if ex["k"] == "ret":
             want_a = [[ex["who"]] + ex["args"]] + ([["nested", "77"]] if sh["nested"] else [])
-        exp[cid] = {"shape": sh, "attr": "unmock_with=[%s]" % ", ".join(lst), "sig": "%sfn m%d(%s, a: u8, b: &str) -> u32" % (asy, t, RECV[recv]),
+        exp[cid] = {"shape": sh, "attr": "unmock_with=[%s]" % ", ".join(lst), "sig": "%sfn m%d(%s, a: u8, b: u8) -> u32" % (asy, t, RECV[recv]),
                     "lines": [first_line, len(L)], "src_case": c,
                     "k": ex["k"], "ret": str(ex["ret"]), "a": want_a, "path": "Tr%d::m%d_%d" % (n, n, t)}
     L.append("fn main() {")
